@@ -70,7 +70,7 @@ pub assume_specification [<Regions as Default>::default] () -> (r: Regions)
             ("r is Some ==> (final(self).regions@, final(self).last_address as nat) == place((old(self).regions@, old(self).last_address as nat), region, type_registry)", L),
         ])
     ghost(ctx, fw, u, before(fw, fw.method_calls(fn, "push")[0]),
-          "proof { assert(self.regions@.push(region).drop_last() == self.regions@); }")
+          "proof { lemma_sum_push(self.regions@, region, type_registry); }")
 
     fn, u = fn_into_verus(ctx, fw, "resolve_regions", ret="res", tags=U,
         requires=["reg_wf(&old(semantic).type_registry)"],
@@ -87,6 +87,7 @@ pub assume_specification [<Regions as Default>::default] () -> (r: Regions)
         ])
     l1 = fw.loop(fn, 1)
     l2 = fw.loop(fn, 2)
+    ghost(ctx, fw, u, after(fw, fw.top_let(fn, "vftable")), """proof { lemma_sum_empty(&semantic.type_registry); assert(resolved.regions@ =~= Seq::<Region>::empty()); }""")
     ghost(ctx, fw, u, before(fw, l1), """let ghost mut pos: Seq<int> = Seq::empty();
     let ghost init_acc = (resolved.regions@, resolved.last_address as nat);""")
     loop_spec(ctx, fw, u, l1, label="it", tags=L, invariants=[
@@ -98,7 +99,8 @@ pub assume_specification [<Regions as Default>::default] () -> (r: Regions)
         "forall|k: int| 0 <= k < it.index() ==> #[trigger] placed_ok(it.seq(), k, resolved.regions@, pos[k], &semantic.type_registry)",
     ])
     ghost(ctx, fw, u, body_start(l1), """let ghost old_regions = resolved.regions@;
-        let ghost old_pos = pos;""")
+        let ghost old_pos = pos;
+        proof { if resolved.regions@.len() == 0 { assert(resolved.regions@ =~= Seq::<Region>::empty()); lemma_sum_empty(&semantic.type_registry); } }""")
     ghost(ctx, fw, u, after(fw, fw.let(fn, "size")), "proof { lemma_pad_size(size, &semantic.type_registry); }")
     st = rules.body_stmts(fw, l1)
     ghost(ctx, fw, u, st[-1]["span"][0], """let ghost before = resolved.regions@;
@@ -123,7 +125,8 @@ pub assume_specification [<Regions as Default>::default] () -> (r: Regions)
         }""")
     ghost(ctx, fw, u, after(fw, l1), "let ghost pre_pad = resolved.regions@;")
     ghost(ctx, fw, u, after(fw, fw.top_let(fn, "size")), """let ghost pre = resolved.regions@;
-    let ghost reg = &semantic.type_registry;""")
+    let ghost reg = &semantic.type_registry;
+    proof { lemma_sum_empty(reg); assert(pre.take(0) =~= Seq::<Region>::empty()); }""")
     rules.for_mut_to_iter_mut(fw, l2)
     loop_spec(ctx, fw, u, l2, label="it2", tags=L, invariants=[
         "reg == &semantic.type_registry",
